@@ -686,6 +686,16 @@ var modules = map[string]*moduleSpec{
 		want:  []string{"CheckIsWrkChainTx", "checkWrkchainFees", "checkFeePayerHasFunds", "checkWrkChainMaxSlots", "AnteHandle"},
 		prims: antePrims(), consts: map[string]constDef{}, world: "aworld", imports: "lib.Prelude lib.GoSdk GeneratedWrkchainTypes model.WrkchainAntePrims",
 		typesMod: "", keeperMod: "GeneratedWrkchainAnte", listName: "wrkchain_ante_other_functions"},
+	"entante": {name: "enterprise", pbFiles: []string{"enterprise.pb.go", "tx.pb.go", "genesis.pb.go", "query.pb.go"}, anteFiles: []string{"ante/ante.go"},
+		want: []string{"AnteHandle"},
+		prims: map[string]fnSig{
+			"wrkchain.CheckIsWrkChainTx": {coq: "wrkchain_CheckIsWrkChainTx", results: []gtype{tBool}},
+			"beacon.CheckIsBeaconTx":     {coq: "beacon_CheckIsBeaconTx", results: []gtype{tBool}},
+			"k.entk.IsLocked":            {coq: "ent_IsLocked", reads: true, results: []gtype{tBool}, dropCtx: true},
+			"k.entk.UnlockCoinsForFees":  {coq: "go_UnlockCoinsForFees", stateful: true, impure: true, hasErr: true, dropCtx: true},
+		},
+		consts: map[string]constDef{}, world: "eworld", imports: "lib.Prelude lib.GoSdk GeneratedEnterpriseTypes model.EnterpriseKeeperPrims GeneratedEnterpriseKeeper model.EnterpriseAntePrims",
+		typesMod: "", keeperMod: "GeneratedEnterpriseAnte", listName: "enterprise_ante_other_functions"},
 	"bcnante": {name: "beacon", pbFiles: []string{"beacon.pb.go", "tx.pb.go", "genesis.pb.go", "query.pb.go"}, anteFiles: []string{"ante/ante.go", "exported/exported.go"},
 		want:  []string{"CheckIsBeaconTx", "checkBeaconFees", "checkFeePayerHasFunds", "checkBeaconMaxSlots", "AnteHandle"},
 		prims: antePrims(), consts: map[string]constDef{}, world: "aworld", imports: "lib.Prelude lib.GoSdk GeneratedBeaconTypes model.BeaconAntePrims",
